@@ -137,6 +137,10 @@ def run_case_full(case):
 def run_case(case):
     if not isinstance(case.get("stream"), str):
         raise C.CaseInvalid("stream")
+    for k_, lo in (("recv_bytes", 1), ("max_request_body_size", 1), ("max_request_header_size", 1), ("inbuf_overflow", 1)):
+        v_ = (case.get("adj") or {}).get(k_)
+        if v_ is not None and (not isinstance(v_, int) or v_ < lo):
+            raise C.CaseInvalid(k_)
     try:
         s2b(case["stream"])
     except UnicodeEncodeError:
